@@ -71,13 +71,18 @@ def run_case(ctx, rng, ci):
     import numpy as np
     kind = rng.choice(["det", "det", "prob", "ens"])
     twin_grids = rng.random() < 0.25
-    ds = gen.make_dataset(rng, n_inputs=rng.choice([2, 2, 3, 4]), prob=kind == "prob", ens=kind == "ens", members=3,
-                          miss=rng.choice([0.0, 0.1, 0.2]), sparse=rng.choice([0.0, 0.2]) if not twin_grids else 0.0, max_t=5, max_l=4, max_s=4,
-                          some_without_obs=rng.random() < 0.35, same_dims=twin_grids, fmt="text" if twin_grids else None,
-                          leadtime_pool=[0, 1, 2, 3, 4, 5, 6, 9, 12, 15, 18, 24] if twin_grids else None)
+    dense_net = kind == "det" and not twin_grids and rng.random() < 0.3       # enough close stations for neighbourhood scores (fss)
+    from vmon.props import c04 as _c04
+    ds = gen.make_dataset(rng, n_inputs=rng.choice([2, 2, 3, 4]) if not dense_net else rng.choice([2, 3]), prob=kind == "prob",
+                          ens=kind == "ens", members=3,
+                          miss=rng.choice([0.0, 0.1, 0.2]), sparse=rng.choice([0.0, 0.2]) if not (twin_grids or dense_net) else 0.0, max_t=5 if not dense_net else 3,
+                          max_l=4 if not dense_net else 3, max_s=4,
+                          some_without_obs=rng.random() < 0.35 and not dense_net, same_dims=twin_grids, fmt="text" if twin_grids else None,
+                          leadtime_pool=[0, 1, 2, 3, 4, 5, 6, 9, 12, 15, 18, 24] if twin_grids else None,
+                          loc_pool=_c04.FSS_LOCS if dense_net else None, n_locs=rng.randint(6, 9) if dense_net else None)
     if any("obs" not in i["has"] for i in ds["inputs"]):
         ctx.count("families_with_borrowed_observations")
-    if rng.random() < 0.4 and all("obs" in i["has"] for i in ds["inputs"]):
+    if (rng.random() < 0.4 or dense_net) and all("obs" in i["has"] for i in ds["inputs"]):
         # files from different sources may store different observations for the same case: each input is scored on its own
         # (not combined with files that have no observations: which file's they borrow is then a matter of command-line order)
         for j, inp in enumerate(ds["inputs"][1:]):
@@ -97,7 +102,7 @@ def run_case(ctx, rng, ci):
             ctx.count("families_with_same_ends_other_interior")
     base = os.path.join(ctx.workdir, "c%d" % ci)
     pa, _ = write_variant(ds, os.path.join(base, "a"), rng, True)
-    conflict = rng.random() < 0.3
+    conflict = rng.random() < 0.3 and not dense_net      # (neighbourhood scores depend on the station coordinates themselves)
     pb, nonid = write_variant(ds, os.path.join(base, "b"), rng, False, conflict)
     case = {"ds": ds}
     fmts = "".join(i["fmt"][0] for i in ds["inputs"])
@@ -201,6 +206,9 @@ def run_case(ctx, rng, ci):
                                   "copy %s differ" % (" ".join(cmd), sorted(v1.items())[:6], sorted(v2.items())[:6]), case)
     # (c) file order
     cmd = rng.choice(COMMANDS[:4] + commands[7:])
+    if dense_net:
+        cmd = ["-m", "fss", "-r", rng.choice(["3", "5", "8"])] + rng.choice([[], ["-x", "leadtime"]])
+        ctx.count("fss_file_order_families")
     ref_cols = None
     orders = list(itertools.permutations(range(F)))
     if len(orders) > 24:
